@@ -29,6 +29,11 @@ var solvers = []solverSpec{
 	{"z3", func(f string, t, seed int) []string {
 		return []string{"z3", fmt.Sprintf("-T:%d", t), fmt.Sprintf("smt.random_seed=%d", seed), f}
 	}},
+	// a second z3 5.1 with another random seed: quantified goals are seed-sensitive, and a goal that one seed
+	// decides in a fraction of a second can time out under another
+	{"z3-new/s2", func(f string, t, seed int) []string {
+		return []string{"z3-new", fmt.Sprintf("-T:%d", t), fmt.Sprintf("smt.random_seed=%d", seed+7919), f}
+	}},
 	{"cvc5", func(f string, t, seed int) []string {
 		return []string{"cvc5", "--lang=smt2", fmt.Sprintf("--tlimit=%d", t*1000), fmt.Sprintf("--seed=%d", seed), f}
 	}},
@@ -44,12 +49,28 @@ type SolveResult struct {
 
 // buildScript renders the VC of an obligation.
 func (o *Obligation) buildScript(getValues []*Term) string {
+	return o.buildScriptSeed(getValues, o.Goal)
+}
+
+// buildScriptSeed renders the VC with the assumptions relevant to seed (the whole goal, or only
+// its consequent for the cheap first attempt).
+func (o *Obligation) buildScriptSeed(getValues []*Term, seed *Term) string {
 	fx := o.fx
 	ts := fx.ts
 	s := &Script{ts: ts}
-	s.Asserts = append(s.Asserts, fx.relevantFacts(fx.facts[:o.NFacts], o.Goal)...)
-	s.Asserts = append(s.Asserts, ts.Not(o.Goal))
-	s.Asserts = append(s.Asserts, ts.divChainLemmas(s.Asserts)...)
+	s.Asserts = append(s.Asserts, fx.relevantFacts(fx.facts[:o.NFacts], seed, seed != o.Goal)...)
+	if seed != o.Goal {
+		// cheap attempt: arithmetic lemmas only for quotients in the kept facts and in the consequent
+		lem := ts.divChainLemmas(append(append([]*Term{}, s.Asserts...), seed))
+		if len(lem) > 40 {
+			lem = lem[:40]
+		}
+		s.Asserts = append(s.Asserts, ts.Not(o.Goal))
+		s.Asserts = append(s.Asserts, lem...)
+	} else {
+		s.Asserts = append(s.Asserts, ts.Not(o.Goal))
+		s.Asserts = append(s.Asserts, ts.divChainLemmas(s.Asserts)...)
+	}
 	if fx.usesSpec {
 		s.Prelude = fx.specPrelude()
 	}
@@ -175,6 +196,38 @@ func solveAll(obls []*Obligation, workDir string, timeoutS, seed, par int, cache
 		}(o)
 	}
 	wg.Wait()
+	// second chance for undecided obligations: the machine was fully loaded during the first pass and solver
+	// timeouts are wall-clock, so an obligation that needs a few seconds can be starved. Retry them few at a time
+	// with other seeds. (Only "unknown" is retried; a refutation stands.)
+	var again []*Obligation
+	for _, o := range obls {
+		if o.Status == "unknown" && !o.ExpectSat {
+			again = append(again, o)
+		}
+	}
+	if len(again) == 0 || len(again) > 24 {
+		return
+	}
+	sem2 := make(chan struct{}, 3)
+	for _, o := range again {
+		wg.Add(1)
+		sem2 <- struct{}{}
+		go func(o *Obligation) {
+			defer wg.Done()
+			defer func() { <-sem2 }()
+			first := o.Secs
+			o.Status = ""
+			for _, s := range o.Sub {
+				if s.Status == "unknown" {
+					s.Status = ""
+				}
+			}
+			o.solve(workDir, timeoutS, seed+104729, cache)
+			o.Secs += first
+			o.Retried = true
+		}(o)
+	}
+	wg.Wait()
 }
 
 var renderMu sync.Mutex
@@ -247,6 +300,24 @@ func (o *Obligation) solveOne(workDir string, timeoutS, seed int, cache *solveCa
 			return
 		}
 	}
+	// cheap first attempt: only the assumptions connected to the consequent of the goal (the path
+	// condition stays as a hypothesis but does not pull in the facts of every earlier statement).
+	// Fewer assumptions can only make the query harder to refute, so an unsat answer stands.
+	if !o.ExpectSat && o.Goal.op == "=>" && timeoutS > 3 {
+		renderMu.Lock()
+		small := o.buildScriptSeed(nil, o.Goal.args[1])
+		renderMu.Unlock()
+		if small != script {
+			if os.Getenv("H2VC_KEEP") != "" {
+				_ = os.WriteFile(filepath.Join(workDir, sanitize(o.Name)+".small.smt2"), []byte(small), 0o644)
+			}
+			r := solveScriptWith(small, workDir, 3, seed, "z3-new")
+			if r.Status == "unsat" {
+				o.apply(r)
+				return
+			}
+		}
+	}
 	if o.ExpectSat && timeoutS > 4 {
 		timeoutS = 4 // canaries and covers only need a quick sat/unknown answer
 	}
@@ -255,7 +326,7 @@ func (o *Obligation) solveOne(workDir string, timeoutS, seed int, cache *solveCa
 		cache.put(script, r)
 	}
 	o.apply(r)
-	if os.Getenv("H2VC_KEEP") != "" && (o.Status != "proved") {
+	if os.Getenv("H2VC_KEEP") != "" && (o.Status != "proved" || o.ExpectSat) {
 		_ = os.WriteFile(filepath.Join(workDir, sanitize(o.Name)+".smt2"), []byte(script), 0o644)
 	}
 }
@@ -316,7 +387,7 @@ func mustRead(f string) []byte { b, _ := os.ReadFile(f); return b }
 // calls, new arrays) is kept only when one of those symbols is already
 // connected to the goal. Facts over input symbols only are always kept.
 // Dropping assumptions is sound; it only makes queries smaller.
-func (fx *FuncExec) relevantFacts(facts []*Term, goal *Term) []*Term {
+func (fx *FuncExec) relevantFacts(facts []*Term, goal *Term, strict bool) []*Term {
 	if os.Getenv("H2VC_ALLFACTS") != "" {
 		return facts
 	}
@@ -338,17 +409,50 @@ func (fx *FuncExec) relevantFacts(facts []*Term, goal *Term) []*Term {
 		}
 	}
 	inc := make([]bool, len(facts))
+	// hub symbols (allocation counter, iteration flags, whole heaps) connect everything: in strict mode they do not
+	// count as a connection, and the closure is limited to three rounds
+	hub := map[int]bool{}
+	if strict {
+		cnt := map[int]int{}
+		for i := range facts {
+			for _, v := range infos[i].all {
+				cnt[v.id]++
+			}
+		}
+		for id, c := range cnt {
+			if c*5 > len(facts) && c > 8 {
+				hub[id] = true
+			}
+		}
+		for id := range hub {
+			delete(cone, id)
+		}
+	}
+	rounds := 0
 	for changed := true; changed; {
 		changed = false
+		rounds++
+		if strict && rounds > 3 {
+			break
+		}
 		for i := range facts {
 			if inc[i] {
 				continue
 			}
-			take := len(infos[i].fresh) == 0
+			take := len(infos[i].fresh) == 0 && !strict
 			for _, v := range infos[i].fresh {
 				if cone[v.id] {
 					take = true
 					break
+				}
+			}
+			if strict && !take {
+				// strict mode: facts over inputs only are kept when they touch the cone as well
+				for _, v := range infos[i].all {
+					if cone[v.id] {
+						take = true
+						break
+					}
 				}
 			}
 			if !take {
@@ -356,7 +460,7 @@ func (fx *FuncExec) relevantFacts(facts []*Term, goal *Term) []*Term {
 			}
 			inc[i] = true
 			for _, v := range infos[i].all {
-				if !cone[v.id] {
+				if !cone[v.id] && !hub[v.id] {
 					cone[v.id] = true
 					changed = true
 				}
